@@ -327,6 +327,10 @@ def heap_frame(pre, post):
 
 # Terminated probes for end of stream by asking for one byte: getting none is its normal, documented outcome
 NO_SHORT_EXEMPT = {'Terminated'}
+# classes whose documented job is to recover from a failure inside them (filled from the pinned tree, see DESIGN 9.4)
+# and under which parameters: a failure there cannot be told from the end of the data and ends the element range / the unterminated string.
+IO_RECOVERING = {'GreedyRange': lambda pre: t.TRUE,
+                 'NullTerminated': lambda pre: t.not_(pre.eng.truth(pre.self.fields['require'], pre.st))}
 
 
 def stream_frame(kind):
@@ -335,6 +339,11 @@ def stream_frame(kind):
         if 'stream' not in pre.args:
             return out
         a, b = pre.obj('stream'), post.obj('stream')
+        if a.model == 'adv' and post.exc is None:
+            # a stream operation that failed during this call must surface (as StreamError): returning normally afterwards would turn the
+            # fault into a silently wrong result
+            exempt = IO_RECOVERING.get(pre.self.cls, lambda pre_: t.FALSE)(pre)
+            out.append(('no-failed-stream-operation-is-swallowed', t.implies(t.not_(exempt), t.not_(post.st.ghost.get('io_failed', t.FALSE))), ('C06',)))
         if a.model == 'adv' and pre.self.cls in NO_SHORT_EXEMPT:
             return out
         if a.model == 'adv':
